@@ -18,5 +18,7 @@ def run(ctx):
     failures = progflow.judge(ctx, fam, "fam")
     n = 300 if ctx.tier == "quick" else 2500
     failures += progflow.judge(ctx, progflow.generate(ctx, "funcs", n, extra=("-effects",)), "gen")
+    # beyond the small scope: sizes that cross the one-digit / two-digit boundary of names, counters and indices (spec/FamScale.tla)
+    failures += progflow.judge(ctx, progflow.scale_cases(ctx, "C04"), "scale")
     progflow.report(ctx, failures)
     return ctx.finish(rule=RULE, assumptions=ASSUME)
